@@ -124,6 +124,68 @@ def sc_save_json(M, file_exists, rows=2, cols=2, atomic=True):
     M.check("atomic.every_interruption_by_exception", not bad_int, first_bad=str(bad_int[:1]))
 
 
+@scenario
+def sc_save_pipeline(M, rows=2, cols=2):
+    """save(model_dir, name, out) - the entry point every command uses, ALL registered savers in their registered order
+    (plots, data.json, coalition charts) - for a new run name: the entry written to data.json carries exactly the
+    matrices the Output held when save() was called, and save() leaves the caller's matrices as they were.
+    Symbolically: matplotlib is an inert stub, the file system is SpecFS, gap cells are symbols of either sign."""
+    if not M.symbolic:
+        return _native_save_pipeline(M, rows, cols)
+    save = M.mod("run.save")
+    fs = M.pkg.fs
+    fs.files.clear(); fs.dirs.clear(); del fs.trace[:]; del fs.snapshots[:]
+    root = FSM.SpecPath(fs, "/results")
+    out = _output(M, save, rows, cols)
+    for i in range(rows):
+        for j in range(cols):
+            out.actions[i, j] = float(3 + (i + 2 * j) % 3)          # concrete coalition ids for the chart saver
+    data0 = [[out.data[i, j] for j in range(cols)] for i in range(rows + 1)]
+    acts0 = [[out.actions[i, j] for j in range(cols)] for i in range(rows)]
+    save.save(root, "run-7", out)
+    final = fs.files.get("/results/data.json")
+    ok_doc = isinstance(final, FSM.Doc) and final.kind == "json" and isinstance(final.obj, dict) and set(final.obj) == {"run-7"}
+    M.check("pipeline.document_written", ok_doc)
+    entry = final.obj["run-7"] if ok_doc else {"data": [], "actions": []}
+    M.check("pipeline.shapes", len(entry["data"]) == rows + 1 and all(len(r) == cols for r in entry["data"]))
+    for i in range(rows + 1):
+        for j in range(cols):
+            M.check(f"pipeline.saved_gap_is_produced_gap[{i},{j}]", M.val(entry["data"][i][j]) == M.val(data0[i][j]))
+            M.check(f"pipeline.callers_gap_matrix_untouched[{i},{j}]", M.val(out.data[i, j]) == M.val(data0[i][j]))
+    for i in range(rows):
+        for j in range(cols):
+            M.check(f"pipeline.saved_action_is_produced_action[{i},{j}]", M.val(entry["actions"][i][j]) == M.val(acts0[i][j]))
+
+
+def _native_save_pipeline(M, rows, cols):
+    """Native: the real save() (real matplotlib, Agg backend) into a temporary directory."""
+    import pathlib
+    import shutil
+    import tempfile
+    import numpy as np
+    import matplotlib
+    matplotlib.use("Agg")
+    save = M.mod("run.save")
+    data = np.array([[M.real(f"od{i}_{j}") for j in range(cols)] for i in range(rows + 1)], dtype=float)
+    acts = np.array([[float(3 + (i + 2 * j) % 3) for j in range(cols)] for i in range(rows)], dtype=float)
+    out = save.Output(data.copy(), acts.copy(), Namespace(func=lambda: None, seed=3, name="x"))
+    d = tempfile.mkdtemp(prefix="c19p_")
+    try:
+        save.save(pathlib.Path(d), "run-7", out)
+        got = save.Output.from_file(pathlib.Path(d) / "data.json", "run-7")
+        M.check("pipeline.document_written", True)
+        M.check("pipeline.shapes", got.data.shape == data.shape)
+        for i in range(rows + 1):
+            for j in range(cols):
+                M.check(f"pipeline.saved_gap_is_produced_gap[{i},{j}]", float(got.data[i, j]) == float(data[i, j]))
+                M.check(f"pipeline.callers_gap_matrix_untouched[{i},{j}]", float(out.data[i, j]) == float(data[i, j]))
+        for i in range(rows):
+            for j in range(cols):
+                M.check(f"pipeline.saved_action_is_produced_action[{i},{j}]", float(got.actions[i, j]) == float(acts[i, j]))
+    finally:
+        shutil.rmtree(d, ignore_errors=True)
+
+
 def _native_save_crash(M, file_exists, rows, cols):
     """Native replay: the real save_json with the k-th write/close/replace made to fail, for every k."""
     from rt import crash
